@@ -37,6 +37,17 @@ NROWS = sp.Symbol('n_rows', positive=True)  # rows of the measurement array
 class FilterLifter(Lifter):
     """Estimator calls become atoms; their arguments are recorded."""
 
+    def ev(self, n, env, fn, depth, owner):
+        # any axis length of the stored measurement array counts missing
+        # values as well (`self._observations.shape[k]`, `.size`)
+        if isinstance(n, ast.Subscript) and U(n.value) == \
+                'self._observations.shape':
+            return NROWS
+        if isinstance(n, ast.Attribute) and U(n) == \
+                'self._observations.size':
+            return NROWS
+        return super().ev(n, env, fn, depth, owner)
+
     def __init__(self, repo, cls, sim_axis=0, **kw):
         super().__init__(repo, cls, **kw)
         self.sim_axis = sim_axis
@@ -182,6 +193,20 @@ def r12_1(ctx, repo):
                 continue
             where = repo.loc(fn, cls, m)
             score = val[0] if isinstance(val, (tuple, Tup)) else val
+            # neither the score nor the gradient may be weighted by a count
+            # that includes missing measurements
+            parts = list(val) if isinstance(val, (tuple, Tup)) else [val]
+            if any(isinstance(x_, sp.Expr) and x_.has(NROWS)
+                   for x_ in parts[1:]):
+                ctx.violation(
+                    rule, where, construct, 'gradient counts missing',
+                    'the returned sensitivities contain a term multiplied by '
+                    'an axis length of the measurement array '
+                    '(`self._observations.shape[..]` / len): that count '
+                    'includes missing (masked) measurements, which the '
+                    'masked sums of the score skip — the gradient is not the '
+                    'derivative of the score when values are missing',
+                    engine=ENG)
             try:
                 l = summand(sp.nsimplify(score, rational=True))
             except NotASum as e:
